@@ -66,12 +66,17 @@ func checkC02(c *Ctx) {
 		lockDiscipline(c, p, "R08.7")
 		c08Stores(c, p, m)
 		c09Globals(c, p, m)
+		c10Frames(c, p, m)
+		c10Creation(c, p, m)
+		messageIdentity(c, p, "R05.10")
 		c13Fanout(c, p, m)
 	}
 	r.Rule("R01.3", "(shared with C01) not admitted means nothing is written: the admission decision function of Level.Enabled equals the documented rule (Off before Always before the order)")
 	r.Rule("R08.7", "(shared with C08) the call returns: every mutex the package acquires is released on every path, and no call made while it is held can come back to it")
 	r.Rule("R08.1", "(shared with C08) the destination is the current one: nothing on the logging path (the package-level dispatcher included) keeps a logger, writer or rendered text in package-level state")
 	r.Rule("R09.2", "(shared with C09) as R08.1 for package-level variables written on the print path")
+	r.Rule("R10.1", "(shared with C10) each destination once: a logger's writer lists are its own (a child never shares its parent's lists or their backing arrays)")
+	r.Rule("R05.10", "(shared with C05) the blank-line test sees the message as given: every hop from the verbs to the encoder passes the message itself")
 	r.Rule("R10.7", "(shared with C10) whatever the argument list: no function stores into an element of its variadic or []any parameter")
 	r.Rule("R01.1", "(shared with C01) not admitted means no destination is written: every path from an entry point to the Write crosses the admitting edge of the logger's own gate")
 	r.Rule("R13.1", "(shared with C13) every destination selected receives the record: the fan-out loop has its natural exit only, ranges over every member and hands each the whole payload")
